@@ -469,6 +469,7 @@ func (p *parser) InstantiateGenericFunction(genericFunc *ast.FuncDecl, genericTy
 	// add the instantiation to prevent recursion
 	genericFunc.Generic.Instantiations[genericModule] = append(genericFunc.Generic.Instantiations[genericModule], &decl)
 	verifInst("new", genericFunc, genericModule, &decl, 0)
+	defer func() { verifInst("done", genericFunc, genericModule, &decl, len(errorCollector.Errors)) }()
 
 	// errors of the instantiation are collected and reported (if at all) at the call site,
 	// they must not mark the (maybe already parsed) module of the generic function as faulty
@@ -482,7 +483,6 @@ func (p *parser) InstantiateGenericFunction(genericFunc *ast.FuncDecl, genericTy
 		// remove the instantiation as we errored
 		genericFunc.Generic.Instantiations[genericModule] = slices.DeleteFunc(genericFunc.Generic.Instantiations[genericModule], func(f *ast.FuncDecl) bool { return f == &decl })
 	}
-	verifInst("done", genericFunc, genericModule, &decl, len(errorCollector.Errors))
 
 	return &decl, errorCollector.Errors
 }
